@@ -369,6 +369,9 @@ func vRunTree(line int, hdr *vHeader, t *vTree, dir string, report func(vMismatc
 		if c.vJudge("resolve", got, err, pan) && want.E == nil {
 			c.vJudgeFS(got, fst)
 		}
+		if which == "two" && (line+idx)%4 != 0 {
+			return // the directive spelling is exercised on every single pattern and on a quarter of the lists
+		}
 		got2, err2, pan2 := vDirective(dir, pats, line+idx)
 		stats["directive_cases"]++
 		c.vJudge("directive", got2, err2, pan2)
